@@ -20,33 +20,45 @@ Variable vs : bool.
 Variable ir : bool.
 Variables ml mi : nat.
 
-Definition xor_prims (s : st) (l : list Z) : list prim :=
-  snd (fold_left (fun (acc : st * list prim) k =>
-                    let '(a, ps) := acc in
-                    if has a k then (discard ir a k, ps ++ [PDel k])
-                    else (TreeRun.add vs ir ml mi a k, ps ++ [PSet k 0 true])) l (s, [])).
+(* the primitive writes of a fold whose steps decide by the current state *)
+Fixpoint fold_prims {A : Type} (f : st -> A -> st) (g : st -> A -> list prim) (l : list A) (s : st)
+  : list prim :=
+  match l with
+  | [] => []
+  | x :: r => g s x ++ fold_prims f g r (f s x)
+  end.
+Definition discard_prims (s : st) (k : Z) : list prim := if has s k then [PDel k] else [].
+Definition add_prims (s : st) (k : Z) : list prim := [PSet k 0 true].
 
 Definition prims_of (s : st) (c : call) : list prim :=
   match c with
   | CSet k v => [PSet k v false]
-  | CDel k | CPop k | CPopD k _ | CRemove k | CDiscard k => [PDel k]
+  | CDel k | CPop k | CPopD k _ | CRemove k => [PDel k]
+  | CDiscard k => discard_prims s k
   | CInsert k v => [PSet k v true]
   | CSetdefault k v =>
     match (if ir then tget Z (t_tree s) k else None) with
     | Some _ => []
     | None => [PSet k v true]
     end
-  | CPopitem | CSPop =>
+  | CPopitem =>
     match contents Z (t_tree s) with [] => [] | (k, _) :: _ => [PDel k] end
-  | CUpdate l => map (fun x => PSet (fst (of_kv x)) (snd (of_kv x)) false) l
+  | CSPop =>
+    match contents Z (t_tree s) with [] => [] | (k, _) :: _ => discard_prims s k end
+  | CUpdate l =>
+    fold_prims (fun acc x => let '(a, _, _) := do_set vs ml mi acc (fst (of_kv x)) (snd (of_kv x)) false in a)
+               (fun _ x => [PSet (fst (of_kv x)) (snd (of_kv x)) false]) l s
   | CClear => [PClear]
-  | CAdd k => [PSet k 0 true]
-  | CSUpdate l | CIor l => map (fun k => PSet k 0 true) l
+  | CAdd k => add_prims s k
+  | CSUpdate l | CIor l => fold_prims (TreeRun.add vs ir ml mi) add_prims l s
   | CIand l =>
-    if ir then PClear :: map (fun k => PSet k 0 true) (filter (has s) l)
-    else map PDel (filter (fun k => negb (existsb (Z.eqb k) l)) (map fst (contents Z (t_tree s))))
-  | CIsub l => map PDel l
-  | CIxor l => xor_prims s l
+    if ir then PClear :: fold_prims (TreeRun.add vs ir ml mi) add_prims (filter (has s) l) (do_clear ir s)
+    else fold_prims (discard ir) discard_prims
+                    (filter (fun k => negb (existsb (Z.eqb k) l)) (map fst (contents Z (t_tree s)))) s
+  | CIsub l => fold_prims (discard ir) discard_prims l s
+  | CIxor l =>
+    fold_prims (fun acc k => if has acc k then discard ir acc k else TreeRun.add vs ir ml mi acc k)
+               (fun acc k => if has acc k then discard_prims acc k else add_prims acc k) l s
   | _ => []
   end.
 
@@ -110,3 +122,10 @@ Inductive wchcase :=
   CH (ml mi : nat) (vsame iand_rebuilds : bool) (calls : list call) (obs : list wchobs).
 Definition chcase_ok (c : wchcase) : bool :=
   match c with CH ml mi vs ir calls obs => ch_run vs ir ml mi init pinit calls obs end.
+
+(* the tree model and the pointer model side by side under the public API *)
+Definition api_step (vs ir : bool) (ml mi : nat) (sp : st * pst) (c : call) : st * pst :=
+  (fst (step vs ir ml mi (fst sp) c),
+   prim_run vs ml mi (snd sp) (prims_of vs ir ml mi (fst sp) c)).
+Definition api_run (vs ir : bool) (ml mi : nat) (cs : list call) : st * pst :=
+  fold_left (api_step vs ir ml mi) cs (init, pinit).
